@@ -21,6 +21,7 @@ import (
 	"github.com/go-kit/log/level"
 	"github.com/prometheus/client_golang/prometheus"
 	"github.com/prometheus/client_golang/prometheus/promauto"
+	"github.com/prometheus/prometheus/model/labels"
 	"github.com/prometheus/prometheus/promql"
 	"github.com/prometheus/prometheus/promql/parser"
 	"github.com/prometheus/prometheus/storage"
@@ -331,6 +332,10 @@ loop:
 			resultMatrix = append(resultMatrix, s)
 		}
 		sort.Sort(resultMatrix)
+		resultMatrix, err = mergeSeriesWithSameLabels(resultMatrix)
+		if err != nil {
+			return newErrResult(ret, err)
+		}
 		ret.Value = resultMatrix
 		return ret
 	}
@@ -356,6 +361,15 @@ loop:
 				},
 			})
 		}
+		seen := make(map[string]struct{}, len(vector))
+		var buf []byte
+		for i := range vector {
+			buf = vector[i].Metric.Bytes(buf)
+			if _, ok := seen[string(buf)]; ok {
+				return newErrResult(ret, errSameLabelset)
+			}
+			seen[string(buf)] = struct{}{}
+		}
 		result = vector
 	case parser.ValueTypeScalar:
 		v := math.NaN()
@@ -369,6 +383,41 @@ loop:
 
 	ret.Value = result
 	return ret
+}
+
+var errSameLabelset = errors.New("vector cannot contain metrics with the same labelset")
+
+// mergeSeriesWithSameLabels merges series of a sorted matrix which ended up
+// with the same label set (e.g. after the metric name was dropped) when they
+// have points at different steps. Like in Prometheus, two points of one label
+// set at the same step fail the query.
+func mergeSeriesWithSameLabels(matrix promql.Matrix) (promql.Matrix, error) {
+	out := matrix[:0]
+	for _, s := range matrix {
+		if len(out) == 0 || !labels.Equal(out[len(out)-1].Metric, s.Metric) {
+			out = append(out, s)
+			continue
+		}
+		last := &out[len(out)-1]
+		merged := make([]promql.Point, 0, len(last.Points)+len(s.Points))
+		i, j := 0, 0
+		for i < len(last.Points) && j < len(s.Points) {
+			switch {
+			case last.Points[i].T == s.Points[j].T:
+				return nil, errSameLabelset
+			case last.Points[i].T < s.Points[j].T:
+				merged = append(merged, last.Points[i])
+				i++
+			default:
+				merged = append(merged, s.Points[j])
+				j++
+			}
+		}
+		merged = append(merged, last.Points[i:]...)
+		merged = append(merged, s.Points[j:]...)
+		last.Points = merged
+	}
+	return out, nil
 }
 
 func newErrResult(r *promql.Result, err error) *promql.Result {
